@@ -52,6 +52,8 @@ ASSUMPTIONS = [
     "counted as url.non_ascii_url_rejected; if accepted, all monitors apply. The A-label form must work",
     "a Host header carrying the U-label (UTF-8) form of an IDN is accepted as pointing at the host; counted as edit.host_header_non_ascii",
     "edited ports are 1..65535",
+    "generated ASCII labels never have '--' in positions 3-4 (reserved LDH labels, RFC 5891): a random 'xn--x' is not a valid A-label, "
+    "so the host setter rejecting it (UnicodeError from the idna codec) is outside the property's domain of valid hosts",
 ]
 LEVEL_TEXT = (
     "Exploration over inputs and short edit histories: generated URLs and host/port/url edits run against the real "
@@ -81,6 +83,9 @@ def gen_label(r):
     n = r.choice([1, 2, 3, 5, 8, 20, 63])
     alpha = "abcdefghijklmnopqrstuvwxyz0123456789"
     s = "".join(r.choice(alpha + "-_" if 0 < i < n - 1 else alpha) for i in range(n))
+    if s[2:4] == "--":
+        # RFC 5891 4.2.3.1: "--" in positions 3-4 is reserved (xn-- A-labels); a random one is not a valid host label
+        s = s[:2] + "a-" + s[4:]
     return s
 
 
